@@ -535,6 +535,10 @@ impl<I: Hash + Eq, A: Hash + Eq> Game<I, A> {
                 match actions.len() {
                     0 => Err(GameError::EmptyPlayer),
                     1 => {
+                        if player_num.ind(player_infosets).contains(&infoset) {
+                            // the same infoset had several actions at an earlier node
+                            return Err(GameError::ActionsNotEqual);
+                        }
                         let action = actions.pop().unwrap();
                         match player_num.ind_mut(single_infosets).entry(infoset) {
                             hash_map::Entry::Occupied(ent) => {
@@ -556,6 +560,10 @@ impl<I: Hash + Eq, A: Hash + Eq> Game<I, A> {
                         )
                     }
                     _ => {
+                        if player_num.ind(single_infosets).contains_key(&infoset) {
+                            // the same infoset had a single action at an earlier node
+                            return Err(GameError::ActionsNotEqual);
+                        }
                         let info_ind = match player_num.ind_mut(player_infosets).entry(infoset) {
                             compact::Entry::Occupied(ent) => {
                                 let (ind, info) = ent.get();
